@@ -55,7 +55,7 @@ reg("C20",
     reach=["end", "two_ticks", "gap_then_tick", "key_removed", "child_only_tick", "empty_structural_tick", "class_empty_delta_on_valid_collection",
            "window_push_below_min_period_recorded"],
     bounds=_GRAPH_BOUNDS,
-    outside=_OUTSIDE + "; sparse (absolute-time) recording and replay with a recordable_id; compare; the record / replay operator front door (wire<stdlib::record>)",
+    outside=_OUTSIDE + "; sparse (absolute-time) recording and replay with a recordable_id (see C20_sparse); compare; the record / replay operator front door (wire<stdlib::record>)",
     assumptions=["replay_impl / dense_record_impl are wired directly as static nodes (wire<stdlib::replay_impl, S>), not through the operator registry; "
                  "record_replay_memory_impl.cpp (registration only) is not linked"],
     )
@@ -68,9 +68,57 @@ reg("C20",
     outside=_OUTSIDE,
     )
 
+_SPARSE_ANCHORS = _GRAPH_ANCHORS + ["include/hgraph/runtime/node_scheduler.h", "src/hgraph/runtime/global_state.cpp"]
+_SPARSE_BOUNDS = ("two real graphs over one GlobalState, node structs from record_replay_memory_impl.h wired directly. History as in C20_graph (drivers of hk_c20.h, NCYC cycles that tick or "
+                  "not, bounds NPRIM / NPRIM5 / NKEYS, symbolic payloads); every observable tick i is one entry (t_i, capture_delta) of a SPARSE recording with SYMBOLIC absolute times "
+                  "t_0 = MIN_ST + [0,GMAX], consecutive cycles [1,GMAX] apart (adjacent cycles and arbitrary holes). Run 1 (graph trait recordable_id='comp', from MIN_ST): "
+                  "replay_impl<S>('in', recordable_id 'src') reading the seeded ':memory:comp.src.in' -> sparse_record_impl('out', 'rec') writing ':memory:comp.rec.out'. Run 2 (fresh graph, no "
+                  "trait, GlobalState copied from run 1's final state, decoy recordings under three neighbouring keys): start = MIN_ST + k, SYMBOLIC k in [0, GMAX*NCYC+2] (before the first entry, "
+                  "on an entry, between entries, beyond the last entry, empty / absent recording): replay_impl<S>('out', recordable_id 'comp.rec') -> sparse_record_impl('out2','chk') and "
+                  "-> dense_record_impl('el', sparse=true); shapes by bit mask SHAPES (TS<int>, TSS<int>, TSD<int,TS<int>>; quick: key universe {1}, thorough: {1,2})")
+_SPARSE_OUTSIDE = (_OUTSIDE + "; recordings with two entries at one time; a replaying run that ENDS before the last entry; a recorder and a replay on the same key in one graph; "
+                   "nested recordable scopes deeper than one trait level; compare; the record / replay operator front door; frame / table backends")
+_SPARSE_REACH = ["end", "two_entries", "gap_then_tick", "empty_recording", "start_before_first_entry", "start_on_first_entry", "start_on_later_entry", "start_between_entries",
+                 "start_beyond_last_entry", "mid_start_skips_and_replays", "mid_start_two_entries_replayed", "two_entries_skipped"]
+reg("C20",
+    name="C20_sparse", src="harness/C20_sparse.cpp",
+    anchor_files=_SPARSE_ANCHORS,
+    quick=dict(defs=dict(NCYC=3, NPRIM=1, NPRIM5=1, NKEYS=1, SHAPES=7), symx=dict(shards=16, **{"max-wall": 2400, "shard-depth": 3})),
+    thorough=dict(defs=dict(NCYC=3, NPRIM=1, NPRIM5=1, NKEYS=2, SHAPES=7), symx=dict(shards=16, **{"max-wall": 3000, "shard-depth": 3})),
+    reach=_SPARSE_REACH + ["key_removed", "child_only_tick", "class_empty_delta_on_valid_collection", "mid_start_delta_depends_on_skipped_prefix"],
+    bounds=_SPARSE_BOUNDS,
+    outside=_SPARSE_OUTSIDE,
+    assumptions=["replay_impl / sparse_record_impl / dense_record_impl are wired directly as static nodes, not through the operator registry; the recording read by run 1 is seeded by the "
+                 "harness with testing::make_sparse_buffer / make_sparse_entry (the calls sparse_record_impl itself makes); run 2 reads the list the real sparse_record_impl wrote; "
+                 "entry times are strictly increasing (one entry per evaluation cycle, which is what a recorder produces within one run)",
+                 "for a replay that starts inside the recording the expected per-tick delta is the one obtained by applying exactly the entries at/after the start, in order, to a fresh "
+                 "stand-alone output with apply_delta (C20_delta checks apply_delta against the original); the recorded delta itself is demanded where it cannot depend on the skipped "
+                 "prefix (TS<int>; any shape when nothing is skipped)"],
+    )
+reg("C20",
+    name="C20_sparse_append", src="harness/C20_sparse.cpp",
+    anchor_files=_SPARSE_ANCHORS,
+    quick=dict(defs=dict(NCYC=3, NPRIM=1, NPRIM5=1, NKEYS=1, SHAPES=1, APPEND=1), symx=dict(shards=16, **{"max-wall": 2400, "shard-depth": 3})),
+    thorough=dict(defs=dict(NCYC=3, NPRIM=1, NPRIM5=1, NKEYS=2, SHAPES=7, APPEND=1), symx=dict(shards=16, **{"max-wall": 3000, "shard-depth": 3})),
+    reach=_SPARSE_REACH + ["recording_appended_across_runs", "appended_recording_read_from_the_middle"],
+    bounds="as C20_sparse, but the recording is written by TWO recording runs over one GlobalState: the first sees entries [0, split) and ends one MIN_TD after the last of them, the second "
+           "starts there, sees entries [split, n) and its sparse_record_impl APPENDS to the list the first one left (split enumerated in [0, n]); quick: TS<int> only",
+    outside=_SPARSE_OUTSIDE,
+    )
+reg("C20",
+    name="C20_sparse_shapes", src="harness/C20_sparse.cpp", tiers=("thorough",),
+    anchor_files=_SPARSE_ANCHORS,
+    thorough=dict(defs=dict(NCYC=3, NPRIM=1, NPRIM5=1, NKEYS=2, SHAPES=0x3f8), symx=dict(shards=16, **{"max-wall": 3000, "shard-depth": 3})),
+    reach=_SPARSE_REACH + ["key_removed", "child_only_tick"],
+    bounds="as C20_sparse for the other seven shapes of hk_c20.h (TSL fixed / dynamic, the two TSB shapes, TSD<int,TSS<int>>, the two TSW shapes)",
+    outside=_SPARSE_OUTSIDE,
+    )
+
 META = dict(
     level="bounded symbolic model checking of the type-erased delta round trip (ts_delta.cpp capture_delta / delta_is_observable / apply_delta and the per-kind TSDataOps "
           "capture/apply/has-effect implementations) on stand-alone real endpoints: every tick history up to the bound for nine schema shapes, all payloads symbolic",
     note="C20_graph runs the real replay_impl -> dense_record_impl node structs in a real graph (record o replay = id on buffers); "
+         "C20_sparse runs the absolute-time form (sparse_record_impl, replay_impl with a recordable_id) with symbolic entry times and a second run that starts at a symbolic "
+         "time inside / before / beyond the recording; "
          "two input classes that contradict the literal statement are listed in known_findings.jsonl under their own assertion ids",
 )
